@@ -535,6 +535,7 @@ type LoopContract struct {
 
 type Contract struct {
 	Func        string // key: "Name", "(*T).Name", "T.Name", "pkgpath.Name" for externals
+	Display     string // stable name used in obligation names when Func was given as an alias ("outer@string")
 	PkgPath     string
 	Pure        bool
 	Transparent bool
